@@ -61,7 +61,7 @@ func indProp(ind reg.Ind) engine.AnyProp {
 			if rapid.IntRange(0, 9).Draw(t, "long") == 0 {
 				n = rapid.IntRange(0, 3*w+40).Draw(t, "n2")
 			}
-			c := IndCase{Cfg: cfg, Bars: gen.GenBars(t, n+8), Lens: make([]int, len(ind.Inputs)), Sched: genSched(t)}
+			c := IndCase{Cfg: cfg, Bars: gen.GenBarsAny(t, n+8), Lens: make([]int, len(ind.Inputs)), Sched: genSched(t)}
 			for i := range c.Lens {
 				c.Lens[i] = n
 				if len(ind.Inputs) > 1 && rapid.IntRange(0, 2).Draw(t, "uneq") == 0 {
@@ -202,7 +202,7 @@ func baseStratProp(st sreg.Strat) engine.AnyProp {
 			if st.Plain != nil && rapid.IntRange(0, 19).Draw(t, "plain") == 0 {
 				tr.Plain = true
 			}
-			return StratCase{Tree: tr, Bars: gen.GenBars(t, genN(t, tr.Warm())), Sched: genSched(t)}
+			return StratCase{Tree: tr, Bars: gen.GenBarsAny(t, genN(t, tr.Warm())), Sched: genSched(t)}
 		},
 		Check: stratCheck,
 	}
@@ -214,7 +214,7 @@ func treeProp() engine.AnyProp {
 		ID: "C03", Subject: "strategy/decorated+compound",
 		Gen: func(t *rapid.T) StratCase {
 			tr := sreg.GenTree(t, names, 2)
-			return StratCase{Tree: tr, Bars: gen.GenBars(t, genN(t, tr.MaxWarm())), Sched: genSched(t)}
+			return StratCase{Tree: tr, Bars: gen.GenBarsAny(t, genN(t, tr.MaxWarm())), Sched: genSched(t)}
 		},
 		Check: stratCheck,
 	}
